@@ -29,8 +29,8 @@ type anode struct {
 	Rej bool `json:"validity_rejects,omitempty"`
 }
 
-var stackForms = []string{"native", "alias", "aliasS", "ptr-alias", "ptr-aliasS", "ptr-native"}
-var condForms = []string{"native", "alias", "aliasS", "ptr-alias", "ptr-native"}
+var stackForms = []string{"native", "alias", "aliasS", "ptr-alias", "ptr-aliasS", "ptr-native", "aliasF", "named-ptr"}
+var condForms = []string{"native", "alias", "aliasS", "ptr-alias", "ptr-native", "aliasF", "named-ptr"}
 
 func (n anode) String() string {
 	switch n.T {
@@ -89,7 +89,14 @@ func (n anode) buildX(forms []int, h bool, late *[]func()) any {
 		if n.Clos {
 			s.SetUnmarshaler(func(...any) ([]any, error) { return []any{"CUSTOM-UNMARSHAL"}, nil })
 			s.SetValidityPolicy(func(...any) error { return nil })
-			s.SetEqualityPolicy(func(a, b any) error { return nil })
+			s.SetEqualityPolicy(func(a, b any) error {
+				// (what the closure is handed when the instance is compared as PART of something else does not depend
+				// on the form the other side stores its counterpart in)
+				if _, native := b.(stackage.Stack); !native {
+					return fmt.Errorf("the nested equality closure was handed a %T", b)
+				}
+				return nil
+			})
 			if n.K != "BASIC" {
 				s.SetPresentationPolicy(func(...any) string { return "CUSTOM-STRING" })
 			}
@@ -130,6 +137,15 @@ func (n anode) buildX(forms []int, h bool, late *[]func()) any {
 				return &z
 			}
 			return &s
+		case "aliasF": // an alias that wraps every method of the exported Interface
+			return StackAliasF(s)
+		case "named-ptr": // a declared pointer type
+			if late != nil {
+				var z stackage.Stack
+				*late = append(*late, func() { z = s })
+				return StackRef(&z)
+			}
+			return StackRef(&s)
 		}
 		return s
 	case "C":
@@ -142,7 +158,12 @@ func (n anode) buildX(forms []int, h bool, late *[]func()) any {
 		}
 		if n.Clos {
 			// an equality closure of the Condition's own, with an answer the built-in comparison would not give
-			c.SetEqualityPolicy(func(a, b any) error { return errE })
+			c.SetEqualityPolicy(func(a, b any) error {
+				if _, native := b.(stackage.Condition); !native {
+					return fmt.Errorf("the nested equality closure was handed a %T", b)
+				}
+				return errE
+			})
 			c.SetValidityPolicy(func(...any) error { return nil })
 		}
 		if n.Rej {
@@ -171,6 +192,15 @@ func (n anode) buildX(forms []int, h bool, late *[]func()) any {
 				return &z
 			}
 			return &c
+		case "aliasF":
+			return CondAliasF(c)
+		case "named-ptr":
+			if late != nil {
+				var z stackage.Condition
+				*late = append(*late, func() { z = c })
+				return CondRef(&z)
+			}
+			return CondRef(&c)
 		}
 		return c
 	}
@@ -534,6 +564,32 @@ func c12FormsCheck(c *Ctx) int {
 		}
 		if cok || !cd.IsZero() {
 			c.Violation("ConvertCondition:"+name, fmt.Sprintf("ConvertCondition(%s) = (zero=%v, %v), want (zero, false)", name, cd.IsZero(), cok), nil, 0)
+		}
+	}
+	// deep pointer chains and declared pointer types lead to what they lead to
+	{
+		st := stackage.And().Push("d1", "d2")
+		cd := stackage.Cond("dk", stackage.Eq, "dv")
+		al := StackAlias(st)
+		for name, v := range map[string]any{"9 pointer levels above a Stack": deepPointer(st, 9), "12 pointer levels above an alias": deepPointer(al, 12), "declared pointer to a Stack": StackRef(&st), "pointer to a declared pointer to an alias": func() any { r := AliasRef(&al); return &r }()} {
+			n++
+			var s stackage.Stack
+			var ok bool
+			if p := noPanic(func() { s, ok = stackage.ConvertStack(v) }); p != "" {
+				c.Violation("panic:Convert:deep-pointer", "ConvertStack("+name+") panicked: "+p, nil, 0)
+			} else if !ok || s.Addr() != st.Addr() {
+				c.Violation("ConvertStack:deep-pointer", fmt.Sprintf("ConvertStack(%s) = (converted %v), want the Stack the pointers lead to", name, ok), nil, 0)
+			}
+		}
+		for name, v := range map[string]any{"9 pointer levels above a Condition": deepPointer(cd, 9), "declared pointer to a Condition": CondRef(&cd)} {
+			n++
+			var x stackage.Condition
+			var ok bool
+			if p := noPanic(func() { x, ok = stackage.ConvertCondition(v) }); p != "" {
+				c.Violation("panic:Convert:deep-pointer", "ConvertCondition("+name+") panicked: "+p, nil, 0)
+			} else if !ok || x.Addr() != cd.Addr() {
+				c.Violation("ConvertCondition:deep-pointer", fmt.Sprintf("ConvertCondition(%s) = (converted %v), want the Condition the pointers lead to", name, ok), nil, 0)
+			}
 		}
 	}
 	// values that merely WRAP a Stack or Condition (a reflect.Value describing one, a struct / slice / map /
